@@ -2,10 +2,12 @@ package rules
 
 import (
 	"go/ast"
+	"go/constant"
 	"go/token"
 	"go/types"
 	"sort"
 	"strings"
+	"verif/checker/internal/cfgx"
 
 	"verif/checker/internal/astx"
 	"verif/checker/internal/flowx"
@@ -61,7 +63,7 @@ func (c *Ctx) moduleCallees(root *load.FuncInfo, samePkgOnly bool) []*load.FuncI
 func c03(c *Ctx) {
 	r := c.R
 	r.Explanation = "Structural completeness of IRCServer.Marshal/Unmarshal: every field of every replicated Go struct (closure of IRCServer's field types) is read by the writer and written by the reader, every exported field of every snapshot protobuf message is set by the writer and read by the reader, each Go field travels through a protobuf field that the reader maps back to the same Go field, converter calls come in listed inverse pairs, and the indexes rebuilt on load (nicks, serverSessions) are rebuilt under the guards used in live operation. Decides the shape of the codec, not behavioural equality of the loaded instance."
-	r.Rules = []string{"C03.K1 go-field coverage", "C03.K2 pb-field coverage", "C03.K3 correspondence + inverse converters", "C03.K4 index rebuild guards", "C03.K5 mode-array loops", "C03.K8 error discipline of the snapshot codec"}
+	r.Rules = []string{"C03.K1 go-field coverage", "C03.K2 pb-field coverage", "C03.K3 correspondence + inverse converters", "C03.K4 index rebuild guards", "C03.K5 mode-array loops", "C03.K8 error discipline of the snapshot codec", "C03.K9 a restored record is what the snapshot says"}
 	r.Assumptions = []string{"protobuf wire encoding itself is lossless for the generated types", "time values lie in the UnixNano range"}
 
 	marshal := c.MustFunc("ircserver.(*IRCServer).Marshal")
@@ -412,6 +414,7 @@ func c03(c *Ctx) {
 	c.c03ModeLoops(marshal, unmarshal)
 	c.c03TriState(marshal, unmarshal)
 	c.c03NoFilter(marshal, unmarshal)
+	c.c03Restore(unmarshal)
 }
 
 // c03TriState (K6): where the reader special-cases an enum's zero value (legacy "unset" inference), the writer never emits it.
@@ -485,6 +488,207 @@ func (c *Ctx) c03TriState(marshal, unmarshal *load.FuncInfo) {
 	if len(special) > 0 {
 		r.Check(n > 0, "C03.K6", marshal.Name(), "tri-state fields written", c.P.Pos(marshal.Node().Pos()), "found", "a field the reader special-cases for its zero value is not written by a literal key")
 	}
+	c.c03TriStateReader(unmarshal)
+}
+
+// c03TriStateReader (K6b): the reader decodes each value the writer emits for a pb enum field to a constant of its own — for
+// pb.Bool: TRUE to true and FALSE to false — whatever it does for the legacy zero value. Decided on the graph: with the edges
+// that contradict <field> == <value> removed, every definition of the decoded variable that can be the last one before the
+// variable is used is the same boolean constant, and the constants for two different values differ.
+func (c *Ctx) c03TriStateReader(unmarshal *load.FuncInfo) {
+	r := c.R
+	info := unmarshal.Info()
+	g := c.Graph(unmarshal)
+	pbPkg := c.P.Pkg("proto")
+	if pbPkg == nil {
+		return
+	}
+	// factOn returns (field, constant value, holds) when the fact compares a pb enum field with a constant
+	factOn := func(f cfgx.Fact) (*types.Var, int64, bool, bool) {
+		var fieldE, constE ast.Expr
+		val := f.Val
+		if f.Tag != nil {
+			fieldE, constE = f.Tag, f.Expr
+		} else if be, ok := ast.Unparen(f.Expr).(*ast.BinaryExpr); ok && (be.Op == token.EQL || be.Op == token.NEQ) {
+			fieldE, constE = be.X, be.Y
+			if _, ok := astx.ConstInt(info, fieldE); ok {
+				fieldE, constE = constE, fieldE
+			}
+			if be.Op == token.NEQ {
+				val = !val
+			}
+		} else {
+			return nil, 0, false, false
+		}
+		se, ok := ast.Unparen(fieldE).(*ast.SelectorExpr)
+		if !ok {
+			return nil, 0, false, false
+		}
+		fv := astx.FieldSel(info, se)
+		if fv == nil || fv.Pkg() == nil || fv.Pkg().Path() != pathProto {
+			return nil, 0, false, false
+		}
+		if n := astx.NamedOf(fv.Type()); n == nil || n.Obj().Pkg() == nil || n.Obj().Pkg().Path() != pathProto {
+			return nil, 0, false, false
+		}
+		k, ok := astx.ConstInt(info, constE)
+		if !ok {
+			return nil, 0, false, false
+		}
+		return fv, k, val, true
+	}
+	// variables with a definition under a fact about such a field
+	type target struct {
+		field *types.Var
+		v     types.Object
+	}
+	seen := map[target]bool{}
+	var targets []target
+	for _, vx := range g.Nodes() {
+		as, ok := vx.Node.(*ast.AssignStmt)
+		if !ok {
+			continue
+		}
+		for _, f := range g.FactsAt(vx.ID) {
+			fv, _, _, ok := factOn(f)
+			if !ok {
+				continue
+			}
+			for _, l := range as.Lhs {
+				if id, ok := l.(*ast.Ident); ok && id.Name != "_" {
+					if o := astx.Obj(info, id); o != nil {
+						if b, ok := o.Type().Underlying().(*types.Basic); ok && b.Kind() == types.Bool && !seen[target{fv, o}] {
+							seen[target{fv, o}] = true
+							targets = append(targets, target{fv, o})
+						}
+					}
+				}
+			}
+		}
+	}
+	for _, tg := range targets {
+		// the non-zero constants of the field's type: what the writer emits (K6)
+		named := astx.NamedOf(tg.field.Type())
+		var vals []int64
+		names := map[int64]string{}
+		for _, nm := range pbPkg.Types.Scope().Names() {
+			if cst, ok := pbPkg.Types.Scope().Lookup(nm).(*types.Const); ok && types.Identical(cst.Type(), named) {
+				if k, ok := constantInt(cst); ok && k != 0 {
+					vals = append(vals, k)
+					names[k] = nm
+				}
+			}
+		}
+		sort.Slice(vals, func(i, j int) bool { return vals[i] < vals[j] })
+		isDef := func(x int) (ast.Expr, bool) {
+			if g.V[x].Node == nil {
+				return nil, false
+			}
+			switch st := g.V[x].Node.(type) {
+			case *ast.AssignStmt:
+				for i, l := range st.Lhs {
+					if id, ok := l.(*ast.Ident); ok && astx.Obj(info, id) == tg.v {
+						if len(st.Lhs) == len(st.Rhs) {
+							return st.Rhs[i], true
+						}
+						return nil, true
+					}
+				}
+			case *ast.DeclStmt:
+				if astx.Mentions(info, st, tg.v) {
+					found := false
+					var val ast.Expr
+					ast.Inspect(st, func(n ast.Node) bool {
+						if vs, ok := n.(*ast.ValueSpec); ok {
+							for i, nm := range vs.Names {
+								if info.Defs[nm] == tg.v {
+									found = true
+									if i < len(vs.Values) {
+										val = vs.Values[i]
+									}
+								}
+							}
+						}
+						return true
+					})
+					if found {
+						if val == nil {
+							return &ast.Ident{Name: "false"}, true // zero value
+						}
+						return val, true
+					}
+				}
+			}
+			return nil, false
+		}
+		decoded := map[int64]string{}
+		for _, k := range vals {
+			contradicts := func(e *cfgx.Edge) bool {
+				for _, f := range e.Facts() {
+					fv, kk, holds, ok := factOn(f)
+					if !ok || fv != tg.field {
+						continue
+					}
+					if (holds && kk != k) || (!holds && kk == k) {
+						return true
+					}
+				}
+				return false
+			}
+			live := g.Reach(g.Entry, nil, contradicts)
+			result := ""
+			for x := range g.V {
+				if !live[x] {
+					continue
+				}
+				rhs, ok := isDef(x)
+				if !ok {
+					continue
+				}
+				// can this definition be the last one before a use?
+				after := g.Reach(x, func(y int) bool { _, d := isDef(y); return d && y != x }, contradicts)
+				final := false
+				for y := range g.V {
+					if after[y] && y != x && g.V[y].Node != nil && astx.Mentions(info, g.V[y].Node, tg.v) {
+						if _, d := isDef(y); !d {
+							final = true
+						}
+					}
+				}
+				if !final {
+					continue
+				}
+				val := "?"
+				if rhs != nil {
+					if id, ok := ast.Unparen(rhs).(*ast.Ident); ok && (id.Name == "true" || id.Name == "false") {
+						val = id.Name
+					} else {
+						val = "computed: " + astx.Str(rhs)
+					}
+				}
+				if result == "" {
+					result = val
+				} else if result != val {
+					result = result + " | " + val
+				}
+			}
+			decoded[k] = result
+			okConst := result == "true" || result == "false"
+			r.Check(okConst, "C03.K6", unmarshal.Name(), "stored value "+names[k]+" of "+tg.field.Name()+" decodes to one constant", c.P.Pos(unmarshal.Node().Pos()), result,
+				"for the stored value "+names[k]+" of "+tg.field.Name()+" the reader does not set "+tg.v.Name()+" to a constant ("+result+"): the value the writer recorded is replaced by an inference (e.g. a session that is not logged in yet comes back as logged in)")
+		}
+		if len(vals) == 2 && (decoded[vals[0]] == "true" || decoded[vals[0]] == "false") {
+			r.Check(decoded[vals[0]] != decoded[vals[1]], "C03.K6", unmarshal.Name(), "the two stored values of "+tg.field.Name()+" decode differently", c.P.Pos(unmarshal.Node().Pos()), decoded[vals[0]]+" / "+decoded[vals[1]],
+				"both stored values of "+tg.field.Name()+" decode to the same value")
+		}
+	}
+	if len(targets) == 0 {
+		r.Break("C03.K6: no variable of Unmarshal is decoded from a pb enum field (LoggedIn)")
+	}
+}
+
+func constantInt(cst *types.Const) (int64, bool) {
+	return constant.Int64Val(constant.ToInt(cst.Val()))
 }
 
 func compositeLitsOfAny(info *types.Info, root ast.Node, pkgpath string) []*ast.CompositeLit {
@@ -520,64 +724,103 @@ func (c *Ctx) c03NoFilter(marshal, unmarshal *load.FuncInfo) {
 			}
 			what := "copy loop over " + astx.Str(rs.X)
 			pos := c.P.Pos(rs.Pos())
-			// no branch statements belonging to this loop
+			// every element is emitted: the emitting statement is reached on every path through the loop body, i.e. no
+			// condition established inside the body (a guard, a continue, a break, an early exit of an expanded helper)
+			// lies on the way to it — except the test of a boolean element itself
 			bad := ""
-			var walk func(list []ast.Stmt, cond ast.Expr)
 			emits := 0
-			walk = func(list []ast.Stmt, cond ast.Expr) {
-				for _, st := range list {
-					switch x := st.(type) {
-					case *ast.BranchStmt:
-						if x.Tok == token.CONTINUE || x.Tok == token.BREAK {
-							bad = "a " + x.Tok.String() + " skips elements"
-						}
-					case *ast.IfStmt:
-						walk(x.Body.List, x.Cond)
-						if els, ok := x.Else.(*ast.BlockStmt); ok {
-							walk(els.List, x.Cond)
-						}
-					case *ast.AssignStmt:
-						emit := false
-						for i, l := range x.Lhs {
-							// out = append(out, …)  /  out[k] = …  /  i.field[k] = …
-							if len(x.Rhs) == len(x.Lhs) {
-								if call, ok := ast.Unparen(x.Rhs[i]).(*ast.CallExpr); ok && astx.Builtin(info, call) == "append" {
-									emit = true
-									if se, ok := ast.Unparen(l).(*ast.SelectorExpr); ok && derived[c.P.FieldName(astx.FieldSel(info, se))] {
-										emit = false
-									}
-								}
-							}
-							if ie, ok := ast.Unparen(l).(*ast.IndexExpr); ok {
-								if _, isArr := info.TypeOf(ie.X).Underlying().(*types.Array); !isArr {
-									emit = true
-									if se, ok := ast.Unparen(ie.X).(*ast.SelectorExpr); ok && derived[c.P.FieldName(astx.FieldSel(info, se))] {
-										emit = false
-									}
+			g := c.Graph(fi)
+			var emitStmts []*ast.AssignStmt
+			ast.Inspect(rs.Body, func(k ast.Node) bool {
+				switch x := k.(type) {
+				case *ast.RangeStmt, *ast.ForStmt, *ast.FuncLit:
+					return false // nested loops are judged on their own
+				case *ast.AssignStmt:
+					emit := false
+					for i, l := range x.Lhs {
+						// out = append(out, …)  /  out[k] = …  /  i.field[k] = …
+						if len(x.Rhs) == len(x.Lhs) {
+							if call, ok := ast.Unparen(x.Rhs[i]).(*ast.CallExpr); ok && astx.Builtin(info, call) == "append" {
+								emit = true
+								if se, ok := ast.Unparen(l).(*ast.SelectorExpr); ok && derived[c.P.FieldName(astx.FieldSel(info, se))] {
+									emit = false
 								}
 							}
 						}
-						if emit {
-							emits++
-							if cond != nil {
-								// allowed: the condition is the range value itself (a boolean element)
-								okCond := false
-								if id, ok := ast.Unparen(cond).(*ast.Ident); ok && rs.Value != nil {
-									if vid, ok := rs.Value.(*ast.Ident); ok && astx.Obj(info, id) == astx.Obj(info, vid) {
-										okCond = true
-									}
-								}
-								if !okCond {
-									bad = "the element is emitted only under " + astx.Str(cond)
+						if ie, ok := ast.Unparen(l).(*ast.IndexExpr); ok {
+							if _, isArr := info.TypeOf(ie.X).Underlying().(*types.Array); !isArr {
+								emit = true
+								if se, ok := ast.Unparen(ie.X).(*ast.SelectorExpr); ok && derived[c.P.FieldName(astx.FieldSel(info, se))] {
+									emit = false
 								}
 							}
 						}
-					case *ast.RangeStmt, *ast.ForStmt:
-						// nested loops are judged on their own
+					}
+					if emit {
+						emitStmts = append(emitStmts, x)
+					}
+				}
+				return true
+			})
+			// the loop in the graph: the vertex whose outgoing edges carry the range statement
+			head, bodyEntry, loopExit := -1, -1, -1
+			for _, hv := range g.V {
+				for _, e := range hv.Succ {
+					if e.Range == rs {
+						head = hv.ID
+						if e.Val {
+							bodyEntry = e.To
+						} else {
+							loopExit = e.To
+						}
 					}
 				}
 			}
-			walk(rs.Body.List, nil)
+			for _, x := range emitStmts {
+				emits++
+				v := g.VertexOf(x)
+				if v < 0 || head < 0 || bodyEntry < 0 {
+					continue
+				}
+				// can an iteration end — go on to the next element, or leave the loop — without emitting? (a return or a
+				// fatal call that abandons the whole copy is not an iteration that ends)
+				skip := false
+				if bodyEntry != v {
+					cont := g.Reach(bodyEntry, func(y int) bool { return y == v }, nil)
+					if cont[head] {
+						skip = true
+					}
+					brk := g.Reach(bodyEntry, func(y int) bool { return y == v || y == head }, nil)
+					if loopExit >= 0 && brk[loopExit] {
+						skip = true
+					}
+				}
+				if !skip {
+					continue
+				}
+				onlyElement := true
+				why := "a path through the loop body passes it by"
+				for _, f := range g.FactsAt(v) {
+					if f.Expr == nil || f.Expr.Pos() < rs.Body.Pos() || f.Expr.End() > rs.Body.End() {
+						continue // established before the loop
+					}
+					// allowed: the condition is the range value itself (a boolean element)
+					if id, ok := ast.Unparen(f.Expr).(*ast.Ident); ok && rs.Value != nil && f.Tag == nil && f.Val {
+						if vid, ok := rs.Value.(*ast.Ident); ok && astx.Obj(info, id) == astx.Obj(info, vid) {
+							continue
+						}
+					}
+					onlyElement = false
+					pol := ""
+					if !f.Val {
+						pol = "not "
+					}
+					why = "the element is emitted only under " + pol + astx.Str(f.Expr)
+				}
+				if !onlyElement || len(g.FactsAt(v)) == 0 {
+					bad = why
+				}
+			}
 			if emits == 0 {
 				return true
 			}
@@ -1084,3 +1327,82 @@ func (c *Ctx) c03ModeLoops(fns ...*load.FuncInfo) {
 
 // keep flowx import used
 var _ = flowx.Set{}
+
+// c03Restore (K9): what Unmarshal builds from a snapshot record is not touched up afterwards, and lists keep their length.
+//   - a session / channel value built from a snapshot record is handed only to functions that write no field of it (a
+//     derived write — recomputing the prefix, "normalising" a flag — makes the restored node differ from the one that
+//     was never serialized, for the records for which the derivation does not hold: server links, legacy data);
+//   - a slice created with a length is filled by index, not appended to (lengthDiscipline).
+func (c *Ctx) c03Restore(unmarshal *load.FuncInfo) {
+	r := c.R
+	if unmarshal == nil || unmarshal.Body() == nil {
+		return
+	}
+	info := unmarshal.Info()
+	sess := c.P.Named("ircserver", "Session")
+	ch := c.P.Named("ircserver", "channel")
+	ofRecord := func(t types.Type) *types.Named {
+		if p, ok := t.(*types.Pointer); ok {
+			t = p.Elem()
+		}
+		n, _ := t.(*types.Named)
+		if n != nil && (n == sess || n == ch) {
+			return n
+		}
+		return nil
+	}
+	writesFieldsOf := func(fi *load.FuncInfo, n *types.Named, depth int) string {
+		st, _ := n.Underlying().(*types.Struct)
+		var visit func(fi *load.FuncInfo, depth int, seen map[*load.FuncInfo]bool) string
+		visit = func(fi *load.FuncInfo, depth int, seen map[*load.FuncInfo]bool) string {
+			if fi == nil || seen[fi] || depth > 3 || st == nil {
+				return ""
+			}
+			seen[fi] = true
+			ff := c.funcFlow(fi)
+			for k := 0; k < st.NumFields(); k++ {
+				if _, ok := ff.writes[st.Field(k)]; ok {
+					return st.Field(k).Name() + " (in " + shortName(fi) + ")"
+				}
+			}
+			for _, cal := range c.callees(fi) {
+				if w := visit(cal, depth+1, seen); w != "" {
+					return w
+				}
+			}
+			return ""
+		}
+		return visit(fi, depth, map[*load.FuncInfo]bool{})
+	}
+	nCalls := 0
+	for _, call := range astx.Calls(unmarshal.Body(), true) {
+		fn := astx.Callee(info, call)
+		cal := c.P.FuncOf(fn)
+		if cal == nil || cal.Body() == nil {
+			continue
+		}
+		var operands []ast.Expr
+		if se, ok := ast.Unparen(call.Fun).(*ast.SelectorExpr); ok {
+			if sel := info.Selections[se]; sel != nil && sel.Kind() == types.MethodVal {
+				operands = append(operands, se.X)
+			}
+		}
+		operands = append(operands, call.Args...)
+		for _, op := range operands {
+			t := info.TypeOf(op)
+			if t == nil {
+				continue
+			}
+			n := ofRecord(t)
+			if n == nil {
+				continue
+			}
+			nCalls++
+			w := writesFieldsOf(cal, n, 0)
+			r.Check(w == "", "C03.K9", unmarshal.Name(), "restored "+n.Obj().Name()+" handed to "+shortName(cal), c.P.Pos(call.Pos()), "the callee writes no field of it",
+				"a record restored from the snapshot is modified afterwards (field "+w+"): the restored instance differs from the one that was never serialized wherever the derived value is not the stored one")
+		}
+	}
+	c.lengthDiscipline("C03.K9", unmarshal, nil, "after save + load the state holds phantom records (an operator without a name, a service with the empty password, an empty ban)")
+	r.Extra["restore_calls_on_records"] = nCalls
+}
